@@ -1,12 +1,15 @@
 #!/bin/sh
-# usage: seeded_run.sh <patch.diff> <Cxx> [tier]   -- applies the patch to /repo, runs the check, reverts.
+# usage: seeded_run.sh <patch.diff> <Cxx> [tier]
+# Runs the check against a scratch copy of /repo's HEAD with the patch applied (VERIF_REPO), so that
+# /repo itself is never modified while other checks may be reading it.  Equivalent to
+# `git -C /repo apply <patch>; ./check Cxx; git -C /repo checkout -- .`.
 patch="$1"; pid="$2"; tier="${3:-quick}"
-cd /repo || exit 2
-if ! git diff --quiet; then echo "/repo is dirty; refusing"; exit 2; fi
-git apply "$patch" || { echo "patch does not apply"; exit 2; }
-cd /verif && ./check "$pid" --tier "$tier" > /tmp/seeded_out.txt 2>&1; rc=$?
-cd /repo && git checkout -- . 
-grep -c '^VIOLATION' /tmp/seeded_out.txt | sed "s/^/violations: /"
-grep '^VIOLATION' /tmp/seeded_out.txt | head -3
-tail -1 /tmp/seeded_out.txt
+d=$(mktemp -d /tmp/seedrun.XXXXXX) || exit 2
+git -C /repo archive HEAD | tar -x -C "$d" || exit 2
+( cd "$d" && git init -q . >/dev/null 2>&1 && git apply "$patch" ) || { echo "patch does not apply"; rm -rf "$d"; exit 2; }
+cd /verif && VERIF_REPO="$d" ./check "$pid" --tier "$tier" > "$d.out" 2>&1; rc=$?
+grep -c '^VIOLATION' "$d.out" | sed "s/^/violations: /"
+grep '^VIOLATION' "$d.out" | head -3
+tail -1 "$d.out"
 echo "exit=$rc"
+rm -rf "$d" "$d.out"
